@@ -60,8 +60,16 @@ def run(ctx):
                 if s["lhs"]["l"] == 0 and s["rhs"]["rv"] == "use" and s["rhs"]["ops"][0].get("k") == "const":
                     res[s["rhs"]["ops"][0]["int"]] = bl["id"]
         # should_delete local: assigned from to_bool under Some, const true under None; `false` result on its true edge
-        ok = len(tb) == 1 and 0 in res and 1 in res and _row_from_own_cells(prog, c)
-        if ok:
+        from .dml import not_result_local
+        nl = not_result_local(c)
+        if nl is not None and not res and len(tb) == 1 and _row_from_own_cells(prog, c):
+            # result is `!should_delete`: should_delete is to_bool(..) under Some and `true` without a condition
+            L = tb[0][1]["dest"]["l"]
+            from ..flow import derived_locals
+            ok = nl in derived_locals(c, {L}) and any(s["lhs"]["l"] in (L, nl) and s["rhs"]["rv"] == "use" and s["rhs"]["ops"][0].get("int") == 1 for bl in c.blocks for s in bl["stmts"])
+        else:
+            ok = len(tb) == 1 and 0 in res and 1 in res and _row_from_own_cells(prog, c)
+        if ok and nl is None:
             L = tb[0][1]["dest"]["l"]
             none_true = any(s["lhs"]["l"] == L and s["rhs"]["rv"] == "use" and s["rhs"]["ops"][0].get("int") == 1 for bl in c.blocks for s in bl["stmts"])
             f0 = [(e, tr) for (e, tr, g) in Sc.bool_facts_at(res[0]) if e == "_%d" % L]
@@ -86,6 +94,22 @@ def run(ctx):
             sel = [x for x in facts if "Zip<A, B> as std::iter::Iterator>::next@Some.0.1" in x[0] and x[1] is True]
             ok = bool(sel)
             detail = str(facts[-2:])
+            if not ok:
+                # equivalent: the apply loop runs over rows.zip(selected).filter(|(_, &s)| s).map(|(r, _)| r)
+                from ..lib import lifted_closures
+                for L in lifted_closures(prog, f, S):
+                    if L.call_block is None:
+                        continue
+                    nme = cname(prog, f.blocks[L.call_block]["term"])
+                    if nme.endswith("Iterator::filter") and L.param and "Iterator::zip" in L.param and re.fullmatch(r"[*&]*p2\.1", L.SC.local(0)):
+                        # the loop that contains create() draws from this filter
+                        nx = [S.val(t["args"][0]) for b, t in f.calls() if (t.get("callee") or "").endswith("Iterator::next")]
+                        chain = " ".join(nx)
+                        for b, t in f.calls():
+                            if cname(prog, t).endswith("Iterator::map") and ("call@%d:" % L.call_block) in S.val(t["args"][0]):
+                                ok = ("call@%d:" % b) in chain or ok
+                        ok = ok or ("call@%d:" % L.call_block) in chain
+                        detail = "filter on the selection flag"
     ctx.check(ok, R, "Update changes matching rows only", "", "Update::exec does not apply its assignments exactly to the rows whose condition evaluates true (%s)" % detail[:120], f.loc(), fn=f.name, key=R + "|Update")
 
     R = "REL-UPD"
@@ -100,6 +124,13 @@ def run(ctx):
         okn = re.search(r"index_for_column_name\(.*next@Some\.0\.0\)\)?\)?$", ix) is not None or "index_for_column_name(" in ix
         pair = re.findall(r"call@(\d+):<std::slice::Iter<'a, T> as std::iter::Iterator>::next@Some\.0\.0", ix)
         val = re.findall(r"call@(\d+):<std::slice::Iter<'a, T> as std::iter::Iterator>::next@Some\.0\.1", cr[0][2][0])
+        if "index_for_column_name(" not in ix:
+            # the (index, value) pairs were precomputed: updates.iter().map(|(name, value)| (index_for_column_name(name), value)).collect(), then iterated
+            from ..lib import lifted_closures
+            okn = False
+            for L in lifted_closures(prog, f, S):
+                if L.param and "p1.updates" in L.param and re.fullmatch(r"tuple\{.*index_for_column_name\(.*p2\.0\)\)*,[&*]*p2\.1\}", L.SC.local(0)):
+                    okn = True
         ok = okn and bool(pair) and bool(val) and pair[-1] == val[-1] and "Clone>::clone(" in cr[0][2][0]
         stores = [s for bl in f.blocks if not bl["cleanup"] for s in bl["stmts"] if "*" in s["lhs"]["p"] and "ValueRef" in f.locals[s["lhs"]["l"]]]
         ok = ok and len(stores) == 1 and ("call@%d:" % im[0][0]) in S.local(stores[0]["lhs"]["l"])
